@@ -1,8 +1,12 @@
 (* Extraction of the thread-level queue model for tie B (schedules). ExtrOcamlBasic only. *)
 Require Extraction.
 Require Import ExtrOcamlBasic.
-From EV Require QConc.
+From EV Require QConc QConcWake.
 Extraction Language OCaml.
 Set Extraction Optimize.
 Definition qc_run_case := QConc.qc_run_case.
-Extraction "../ocaml/gen/qconc_model.ml" qc_run_case.
+(* the side condition of the wake-up theorems (QConcWake.stopped_along), decided on the run the driver replays:
+   no block of local code was cut short by the fuel of QConc.advance *)
+Definition qc_side_ok (fuel : nat) (progs : list (list QConc.qapi)) (schedule : list nat) : bool :=
+  QConcWake.stopped_alongb fuel (QConc.mkCfg QConc.sh0 (QConc.start_threads progs) schedule false).
+Extraction "../ocaml/gen/qconc_model.ml" qc_run_case qc_side_ok.
